@@ -327,7 +327,10 @@ def gen_schedule(ch):
         main = {"prio": "rand", "prio_main_high": "high", "prio_main_low": "low"}[shape]
         pol = {"policy": "prio", "seed": seed, "q_line": ch.choice([0.0, 0.001, 0.005, 0.02]),
                "q_coarse": ch.choice([0.0, 0.1, 0.3]), "main": main}
-    return {"workers": workers, "policy": pol, "trace_lines": True}
+    sched = {"workers": workers, "policy": pol, "trace_lines": True}
+    if ch.coin(0.15):
+        sched["trace_sortedcontainers"] = True
+    return sched
 
 
 CANONICAL_SCHEDULE = {"workers": 1, "policy": {"policy": "seq"}, "trace_lines": False}
